@@ -236,6 +236,9 @@ pub fn policy_opt(p: Policy) -> Vec<String> {
 pub fn ref_spec(case: &Case, input: &[u8]) -> RunSpec {
     let mut s = RunSpec::plain(&case.argv(), input);
     s.hash_seed = case.hash_seeds.first().copied();
+    if case.param("max_events") > 0 {
+        s.max_events = case.param("max_events") as usize;
+    }
     s
 }
 
@@ -351,6 +354,9 @@ pub fn sim_files_spec(case: &Case, paths: &[String], datas: &[Vec<u8>], plans: &
     argv.extend(paths.iter().cloned());
     let mut spec = RunSpec::plain(&argv, b"");
     spec.hash_seed = case.hash_seeds.first().copied();
+    if case.param("max_events") > 0 {
+        spec.max_events = case.param("max_events") as usize;
+    }
     spec.out = case.out.clone();
     spec.err = case.err.clone();
     spec.files = paths
